@@ -19,7 +19,12 @@
     Shifts and rotates (sal = shl, shr, sar, rol, ror), VALUE only: in every regenerated form the destination is assigned the mirror
     SemShift.shift_val of the dumped operands, and for ALL operands and states that value is the processor's — x * 2^c mod 2^n,
     x / 2^c, the arithmetic shift of the signed reading, the bit rotation — with the count masked to five bits (c = count mod 32,
-    counts >= n included).  The FLAGS of this group are not theorems (several are known findings).
+    counts >= n included).  WHOLE LISTS, flags included (sal shr sar rol ror rcl rcr): every regenerated list is, node for node, the
+    mirror SemShiftFlags.mirror_shf of the dumped operands; for ALL operands and states the carry flag written by shl / shr / sar is
+    the processor's: count 0 keeps cf, otherwise cf receives the last bit shifted out (bit n - c of the operand for shl with c <= n,
+    bit c - 1 for shr and of the sign-extended operand for sar).  The other flag assignments of this group are mirrored as written
+    but have no meaning theorem: several are known findings (zf / sf / pf / of rewritten when the count is 0, the OF "hacks" of the
+    rotates, cf of rotates with count 0).
     Near control transfers with 32-bit operand size (call ret leave jmp): each regenerated list is the mirror SemCtl.mirror_ctl of the
     dumped operands and next-instruction address (return address pushed at esp - 4, eip := target; eip := [esp], esp + 4 + imm;
     ebp := [ebp], esp := ebp + 4), stack-pointer arithmetic modulo 2^32.
@@ -50,11 +55,16 @@
     the two- and three-operand imul yields the product truncated to n bits (the same for signed and unsigned readings), and when the
     divisor is non-zero and the quotient fits (no #DE) div / idiv leave the quotient and remainder of the double-width dividend
     (truncating division of the signed readings for idiv).  The flags of this group are left to the evaluation (known findings).
+    Bit scans, flag images and frames (setalc bsf bsr xlat pushfd pushfw popfd popfw enter): every regenerated list is, node for node, the
+    mirror SemSys.mirror_sys; bsf / bsr of a non-zero operand yield the index of its lowest / highest set bit (Expr.named_op's reading
+    of the operators bsf / bsr) and zf tells whether the source is zero; setalc fills al with cf; xlat reads the byte at ebx + al
+    modulo 2^32; bit j of the pushed EFLAGS image is the bit of the flag the SDM layout places there, and popf assigns every flag its
+    bits of the popped cell; enter (nesting level 0, 32-bit) saves ebp at esp - 4 and drops esp by the frame size plus 4.
     af is refuted (known finding: the formula is pinned by tests/test_emul.py).  Everything else of the integer core (flags of
-    shifts and rotates, rcl/rcr, other control transfers ...) is decided by evaluating the regenerated IR with the
+    shifts and rotates, rcl/rcr, far and 16-bit control transfers ...) is decided by evaluating the regenerated IR with the
     extracted Expr.eval against the SDM reference (harness/p_c04.py), not by a theorem. *)
 From Coq Require Import ZArith List Bool String.
-From Mx Require Import Expr Wf Sem SemProofs SemFacts SemCC SemCCProofs SemCCFacts SemMov SemMovProofs SemMovFacts SemShift SemShiftProofs SemShiftFacts SemCtl SemCtlProofs SemCtlFacts SemStr SemStrProofs SemStrFacts SemFlagMove SemFlagMoveFacts SemMisc SemMiscProofs SemMiscFacts SemDShift SemDShiftProofs SemDShiftFacts SemMulDiv SemMulDivProofs SemMulDivFacts.
+From Mx Require Import Expr Wf Sem SemProofs SemFacts SemCC SemCCProofs SemCCFacts SemMov SemMovProofs SemMovFacts SemShift SemShiftProofs SemShiftFacts SemCtl SemCtlProofs SemCtlFacts SemStr SemStrProofs SemStrFacts SemFlagMove SemFlagMoveFacts SemMisc SemMiscProofs SemMiscFacts SemDShift SemDShiftProofs SemDShiftFacts SemMulDiv SemMulDivProofs SemMulDivFacts SemSys SemSysProofs SemSysFacts SemShiftFlags SemShiftFlagsProofs SemShiftFlagsFacts.
 From MxGen Require Import LiftAll.
 Import ListNotations.
 Open Scope Z_scope.
@@ -420,6 +430,57 @@ Theorem C04_idiv : forall rho mu iota a, operand_ok a = true -> eval rho mu iota
 Proof. exact idiv_value. Qed.
 Print Assumptions C04_idiv.
 
+(** setalc bsf bsr xlat pushfd pushfw popfd popfw enter *)
+Theorem C04_sys_forms_are_the_mirror : forall sh c k l, In sh shards -> In c sh -> sys_of (lc_mnemo c) = Some k -> lc_lift c = Some l ->
+  exists m, mirror_sys k (lc_o16 c) (lc_args c) = Some m /\ forall rho mu iota, map (eval rho mu iota) l = map (eval rho mu iota) m.
+Proof. exact sys_forms_lifted. Qed.
+Print Assumptions C04_sys_forms_are_the_mirror.
+Theorem C04_bsf_bsr : forall rho mu iota b, operand_ok b = true -> size b <= 64 -> eval rho mu iota b <> 0 -> let v := eval rho mu iota b in
+  (let k := eval rho mu iota (EOp "bsf" [b]) in 0 <= k < size b /\ Z.testbit v k = true /\ forall t, 0 <= t < k -> Z.testbit v t = false) /\
+  (let k := eval rho mu iota (EOp "bsr" [b]) in 0 <= k < size b /\ Z.testbit v k = true /\ forall t, k < t -> Z.testbit v t = false).
+Proof. intros rho mu iota b Ob Sb Nz v. split; [apply bsf_value | apply bsr_value]; assumption. Qed.
+Print Assumptions C04_bsf_bsr.
+Theorem C04_setalc_xlat : forall rho mu iota,
+  eval rho mu iota (ECond (flag "cf") (int_from al 255) (int_from al 0)) = (if Z.odd (rho "cf") then 255 else 0) /\
+  eval rho mu iota xlat_addr = (rho "ebx" + rho "eax" mod 2 ^ 8) mod 2 ^ 32.
+Proof. intros rho mu iota. split; [apply setalc_value | apply xlat_address]. Qed.
+Print Assumptions C04_setalc_xlat.
+Theorem C04_eflags_image : forall rho mu iota w s j, In s (if w =? 32 then eflag_low ++ eflag_high else eflag_low) -> slot_lo s <= j < slot_hi s ->
+  Z.testbit (eval rho mu iota (compose_eflag w)) j = Z.testbit (eval rho mu iota (slot_e s)) (j - slot_lo s).
+Proof. exact eflags_image. Qed.
+Print Assumptions C04_eflags_image.
+Theorem C04_popf_assigns_every_flag : forall l cell f lo hi, In (f, lo, hi) l -> (forall sg w v, f <> EInt sg w v) -> In (EAff f (ESlice cell lo hi)) (popf_affs l cell).
+Proof. exact popf_assigns. Qed.
+Print Assumptions C04_popf_assigns_every_flag.
+Theorem C04_enter : forall rho mu iota a, operand_ok a = true -> size a = 32 ->
+  eval rho mu iota (EOp "-" [esp; EInt false 32 4]) = (rho "esp" - 4) mod 2 ^ 32 /\
+  eval rho mu iota (EOp "-" [esp; EOp "+" [a; EInt false 32 4]]) = (rho "esp" - (eval rho mu iota a + 4)) mod 2 ^ 32.
+Proof. exact enter32_value. Qed.
+Print Assumptions C04_enter.
+
+(** shifts and rotates: whole lists, and the carry flag of shl / shr / sar *)
+Theorem C04_shift_lists_are_the_mirror : forall sh c k l, In sh shards -> In c sh -> shf_of (lc_mnemo c) = Some k -> lc_lift c = Some l ->
+  is_shf_mirror k (lc_args c) l = true.
+Proof. exact shf_forms_lifted. Qed.
+Print Assumptions C04_shift_lists_are_the_mirror.
+Theorem C04_tied_shift_list_means_mirror : forall k args l, is_shf_mirror k args l = true ->
+  exists a b, args = [a; b] /\ operand_ok a = true /\ operand_ok b = true /\ (size a = 8 \/ size a = 16 \/ size a = 32) /\
+    forall rho mu iota, map (eval rho mu iota) l = map (eval rho mu iota) (mirror_shf k a b).
+Proof. exact is_shf_mirror_sound. Qed.
+Print Assumptions C04_tied_shift_list_means_mirror.
+Theorem C04_shift_carry : forall rho mu iota a b, operand_ok a = true -> operand_ok b = true -> (size a = 8 \/ size a = 16 \/ size a = 32) ->
+  (size b = 8 \/ size b = 16 \/ size b = 32) ->
+  let n := size a in let x := eval rho mu iota a in let k := eval rho mu iota b mod 32 in
+  (forall new_cf, eval rho mu iota (keep_if_zero b new_cf) = if k =? 0 then rho "cf" mod 2 else eval rho mu iota new_cf) /\
+  (0 < k <= n -> eval rho mu iota (shl_cf a b) = Z.b2z (Z.testbit x (n - k))) /\
+  (0 < k -> eval rho mu iota (shr_cf ">>" a b) = Z.b2z (Z.testbit x (k - 1))) /\
+  (0 < k -> eval rho mu iota (shr_cf "a>>" a b) = Z.b2z (Z.testbit (sgnv n x) (k - 1))).
+Proof.
+  intros rho mu iota a b Oa Ob Sa Sb n x k. split; [intros new_cf; exact (cf_kept_or_new rho mu iota a b Oa Ob Sb new_cf)|].
+  split; [exact (shl_cf_value rho mu iota a b Oa Ob Sa Sb)|]. split; [exact (shr_cf_value rho mu iota a b Oa Ob Sa Sb) | exact (sar_cf_value rho mu iota a b Oa Ob Sa Sb)].
+Qed.
+Print Assumptions C04_shift_carry.
+
 (** the mirror lays the assignments out as the lifter does *)
 Example C04_mirror_layout : forall a b, let c := alu_val Add a b in
   mirror Add a b = [upd_zf c; upd_nf c; upd_pf c; upd_af c; EAff (flag "cf") (add_cf_src a b c); EAff (flag "of") (add_of_src a b c); mk_aff a c].
@@ -470,3 +531,15 @@ Example C04_div_hypotheses_met : let rho := fun r => if (r =? "eax")%string then
   let a := EId "ecx" 32 true false in let ev := eval rho (fun _ => 0) (fun _ _ => 0) in
   operand_ok a = true /\ ev a <> 0 /\ (ev edx * 2 ^ 32 + ev eax) / ev a < 2 ^ 32 /\ ev (EOp "div32" [edx; eax; a]) = 3 /\ ev (EOp "rem32" [edx; eax; a]) = 1.
 Proof. cbv zeta. repeat split; vm_compute; congruence. Qed.
+Example C04_sys_nonvacuous : (170 <= n_sys)%nat.
+Proof. exact many_sys_forms. Qed.
+(** the zero flag sits at bit 6 of the pushed image, the direction flag at bit 10 *)
+Example C04_eflags_zf_df : forall rho mu iota, Z.testbit (eval rho mu iota (compose_eflag 32)) 6 = Z.testbit (eval rho mu iota (flag "zf")) 0 /\
+                                             Z.testbit (eval rho mu iota (compose_eflag 32)) 10 = Z.testbit (eval rho mu iota (flag "df")) 0.
+Proof.
+  intros rho mu iota. split.
+  - apply (eflags_image rho mu iota 32 (flag "zf", 6, 7) 6); [vm_compute; tauto | vm_compute; split; congruence].
+  - apply (eflags_image rho mu iota 32 (flag "df", 10, 11) 10); [vm_compute; tauto | vm_compute; split; congruence].
+Qed.
+Example C04_shift_lists_nonvacuous : (750 <= n_shf)%nat.
+Proof. exact many_shf_forms. Qed.
